@@ -16,7 +16,8 @@
 //!                                           acknowledgements; `early`: the reader thread is held so that the close is processed first
 //!                                           (`W` in the observation = the point where the mutations reach the writer)
 //!   pull s= from=<site> r=<room>            s ingests room r of `from` (the synchronise_day call sequence)
-//!   mix s= ops=<op>;<op>;...                local ops launched concurrently, written `new,n:5,r:1,e:0;upd,n:2;del,n:3;roomadd,r:1`
+//!   mix s= ops=<op>;<op>;... [pull=<site>:<room>]   local ops launched concurrently, written
+//!                                           `new,n:5,r:1,e:0;upd,n:2;del,n:3;roomadd,r:1;stream,rows:7.1.0+8.1.1`, optionally with a concurrent ingestion
 //!   flush s=                                recompute requested by the harness (shows what was left marked)
 //!
 //! Observation: `<status> ev <events> | g <cells>`; events in order of receipt:
@@ -736,10 +737,20 @@ impl World {
                     .filter(|x| !x.is_empty())
                     .map(|x| parse_kv(&x.replace(',', " ").replace(':', "=")))
                     .collect();
+                let pull = match kv.get("pull") {
+                    None => None,
+                    Some(v) => {
+                        let p: Vec<Option<u64>> = v.split(':').map(|x| x.parse::<u64>().ok()).collect();
+                        match p.as_slice() {
+                            [Some(t), Some(r)] => Some((*t as usize, *r)),
+                            _ => return "bad-op".into(),
+                        }
+                    }
+                };
                 if s >= self.sites.len() {
                     return "skip".into();
                 }
-                self.do_mix(s, ops, stats).await
+                self.do_mix(s, ops, pull, stats).await
             }
             _ => "bad-op".into(),
         }
@@ -808,19 +819,53 @@ impl World {
         }
     }
 
-    /// concurrent local ops on one site; rows are disjoint by construction of the generator
-    async fn do_mix(&mut self, s: usize, ops: Vec<(String, Kv)>, stats: &mut Stats) -> String {
-        // sub-ops that are not runnable are dropped (same rule as `skip`); creations of the same row twice too
+    /// Concurrent operations on one site: local sub-operations on pairwise distinct rows (each one a task
+    /// calling the public API, so each one's recompute request follows its own acknowledgement) and,
+    /// optionally, an ingestion from the other site running at the same time. With an ingestion only
+    /// creations, streams and room changes are kept (an update could race with an ingested version).
+    async fn do_mix(&mut self, s: usize, ops: Vec<(String, Kv)>, pull: Option<(usize, u64)>, stats: &mut Stats) -> String {
+        let pull = match pull {
+            Some((t, r))
+                if t < self.sites.len()
+                    && t != s
+                    && self.rooms.contains_key(&r)
+                    && self.sites[t].inst.room(self.rooms[&r]).await.is_some() =>
+            {
+                Some((t, r))
+            }
+            _ => None,
+        };
         let mut todo = vec![];
         let mut used: HashSet<u64> = HashSet::new();
         for (k, mut kv) in ops {
             kv.insert("s".into(), s.to_string());
-            let ok = match k.as_str() {
-                "new" | "upd" | "del" | "roomadd" => self.runnable(&k, &kv) && self.site_has_room(s, &k, &kv).await,
-                _ => false,
+            let (ok, rows): (bool, Vec<u64>) = match k.as_str() {
+                "new" | "upd" | "del" | "roomadd" => (
+                    self.runnable(&k, &kv) && self.site_has_room(s, &k, &kv).await,
+                    if k == "roomadd" { vec![] } else { vec![get_u(&kv, "n").unwrap_or(0)] },
+                ),
+                "stream" => match parse_rows(&kv.get("rows").cloned().unwrap_or_default().replace('.', ":").replace('+', ",")) {
+                    Some(rows) => {
+                        let mut ok = true;
+                        let mut seen = HashSet::new();
+                        for (n, r, e) in &rows {
+                            if self.row_uid.contains_key(n) || !self.rooms.contains_key(r) || *e >= 2 || !seen.insert(*n) {
+                                ok = false;
+                            } else if self.sites[s].inst.room(self.rooms[r]).await.is_none() {
+                                ok = false;
+                            }
+                        }
+                        (ok, rows.iter().map(|x| x.0).collect())
+                    }
+                    None => return "bad-op".into(),
+                },
+                _ => return "bad-op".into(),
             };
-            let key = if k == "roomadd" { 1_000_000 + get_u(&kv, "r").unwrap_or(0) } else { get_u(&kv, "n").unwrap_or(0) };
-            if ok && (k == "roomadd" || used.insert(key)) {
+            let row_op = k == "upd" || k == "del";
+            if ok && !rows.iter().any(|n| used.contains(n)) && !(pull.is_some() && row_op) {
+                for n in rows {
+                    used.insert(n);
+                }
                 todo.push((k, kv));
             }
         }
@@ -833,6 +878,32 @@ impl World {
             let svc = svc.clone();
             let n = get_u(kv, "n").unwrap_or(0);
             let tick = self.tick;
+            if k == "stream" {
+                let rows = parse_rows(&kv["rows"].replace('.', ":").replace('+', ",")).unwrap();
+                let items: Vec<(String, Vec<(&'static str, String)>)> = rows
+                    .iter()
+                    .map(|(n, r, e)| {
+                        (Self::new_query(*e), vec![("r", b64(&self.rooms[r])), ("t", format!("row{} v{}", n, tick))])
+                    })
+                    .collect();
+                handles.push(tokio::spawn(async move {
+                    let (send, mut recv) = svc.mutation_stream();
+                    let mut ids = vec![];
+                    for (q, p) in items {
+                        if send.send((q, Some(params(&p)))).await.is_err() {
+                            return Err("stream".to_string());
+                        }
+                        match recv.recv().await {
+                            Some(Ok(mq)) => ids.push(mq.mutate_entities[0].node_to_mutate.id),
+                            Some(Err(e)) => return Err(class(&e)),
+                            None => return Err("stream-closed".to_string()),
+                        }
+                    }
+                    drop(send);
+                    Ok(ids)
+                }));
+                continue;
+            }
             let (q, p): (String, Vec<(&'static str, String)>) = match k.as_str() {
                 "new" => (
                     Self::new_query(get_u(kv, "e").unwrap()),
@@ -867,30 +938,40 @@ impl World {
             let is_del = k == "del";
             handles.push(tokio::spawn(async move {
                 if is_del {
-                    svc.delete(&q, Some(params(&p))).await.map(|_| None).map_err(|e| class(&e))
+                    svc.delete(&q, Some(params(&p))).await.map(|_| vec![]).map_err(|e| class(&e))
                 } else {
                     svc.mutate_raw(&q, Some(params(&p)))
                         .await
-                        .map(|mq| Some(mq.mutate_entities[0].node_to_mutate.id))
+                        .map(|mq| vec![mq.mutate_entities[0].node_to_mutate.id])
                         .map_err(|e| class(&e))
                 }
             }));
         }
         let mut status = "ok".to_string();
         let mut n_req = 0;
+        // the ingestion runs here while the spawned callers run on the other worker threads
+        let mut created: Vec<(u64, Uid, u64)> = vec![];
+        if let Some((t, r)) = pull {
+            let (st, n) = self.do_pull(s, t, r).await;
+            stats.inc("mix.pull");
+            if !st.starts_with("ok") {
+                status = st;
+            }
+            n_req += n;
+        }
         for ((k, kv), h) in todo.iter().zip(handles) {
             n_req += 1;
             stats.inc(&format!("mix.{}", k));
             match h.await {
-                Ok(Ok(id)) => {
+                Ok(Ok(ids)) => {
                     let n = get_u(kv, "n").unwrap_or(0);
                     match k.as_str() {
-                        "new" => {
-                            let e = get_u(kv, "e").unwrap();
-                            let id = id.unwrap();
-                            self.row_uid.insert(n, (id, e));
-                            self.row_of_uid.insert(id, n);
-                            self.sites[s].rows.insert(n, (id, e));
+                        "new" => created.push((n, ids[0], get_u(kv, "e").unwrap())),
+                        "stream" => {
+                            let rows = parse_rows(&kv["rows"].replace('.', ":").replace('+', ",")).unwrap();
+                            for ((n, _, e), id) in rows.iter().zip(ids) {
+                                created.push((*n, id, *e));
+                            }
                         }
                         "del" => {
                             self.sites[s].rows.remove(&n);
@@ -901,6 +982,11 @@ impl World {
                 Ok(Err(c)) => status = format!("err:{}", c),
                 Err(_) => status = "err:panic".into(),
             }
+        }
+        for (n, id, e) in created {
+            self.row_uid.insert(n, (id, e));
+            self.row_of_uid.insert(id, n);
+            self.sites[s].rows.insert(n, (id, e));
         }
         self.step_clock();
         // the grouping of cells into events depends on the schedule: the observation is the union
